@@ -49,7 +49,7 @@ theorem Num.lose (h : Num (sm x c)) (extra : List WsIn) (deaf : Bool) (hx : inMs
 theorem Num.stepL (h : Num (sm x c)) {c' : BC} (st : CStepL c c') (hn : c'.a.rng ≠ []) : Num (sm x c') := by
   cases st with
   | act v ws gs hs => exact h.act hs hn
-  | dlv m rest deaf hb => exact h.dlv m rest deaf hb
+  | dlv m rest deaf hb _ => exact h.dlv m rest deaf hb
   | lose extra deaf hx => exact h.lose extra deaf hx
 
 end Penguin.BindAll
